@@ -144,12 +144,16 @@ def wave_nontrivial(case, labels):
 @st.composite
 def ab_case(draw):
     rows = draw(st.integers(1, 20))
-    return dict(rows=rows, vals=[[10 ** (2 * draw(uf)) for _ in range(5)] for _ in range(rows)], dtype=draw(st.sampled_from(['f8', 'f4'])))
+    return dict(rows=rows, vals=[[10 ** (2 * draw(uf)) for _ in range(5)] for _ in range(rows)], dtype=draw(st.sampled_from(['f8', 'f4', 'f8', 'i8', 'i4'])))
 
 
 def ab_body(case):
     from pydl.photoop.sdssio import sdssflux2ab
-    x = np.array(case['vals'], dtype=case['dtype'])
+    if case['dtype'].startswith('i'):
+        # whole-number fluxes (counts) / magnitudes held in an integer array (D48): 1 .. 1000
+        x = np.maximum(1, np.round(10 * np.array(case['vals']))).astype(case['dtype'])
+    else:
+        x = np.array(case['vals'], dtype=case['dtype'])
     keep = x.copy()
     fl = np.asarray(call(sdssflux2ab, x), dtype='f8')
     mg = np.asarray(call(sdssflux2ab, x, magnitude=True), dtype='f8')
